@@ -20,6 +20,8 @@ getuid/geteuid of every registered object after the step) and decides whether pr
   export   export_uid returns 1 only from a caller with euid != 0 onto a target with euid 0; a caller with euid 0
            gets the error
   asked    a seteuid(string) of an existing object reaches the master with exactly that object and string
+  bind     a function re-bound (bind()) to another object runs only after master::valid_bind approved that doer and
+           new owner; what it creates is judged as an op of the new owner
   known    every object in a snapshot was there before or was announced in this step; announced objects appear in
            the snapshot as announced; every object has a uid; the driver did not crash
 
@@ -138,10 +140,21 @@ def knownClause (P : List Obj) (r : StepRec) : Bool :=
           | none => false)
        | none => true))
 
+/-- bind     a function re-bound to another object runs (as that object: its euid counts for what it creates) only after
+             the master's valid_bind approved exactly this doer and new owner; binding to oneself needs nobody -/
+def bindClause (r : StepRec) : Bool :=
+  match r.bindTo with
+  | none => true
+  | some t =>
+    r.res.isSome || decide (r.actor = t) ||
+      (match r.vb with
+       | some (d, n, a) => decide (d = r.actor) && decide (n = t) && a.approved
+       | none => false)
+
 def clauses (bb : Option Name) (P : List Obj) (r : StepRec) : List (Bool × String) :=
   [(knownClause P r, "known"), (euidClause P r, "euid"), (uidClause P r, "uid"),
    (creationClause bb P r, "creation"), (noEuidClause P r, "noeuid"), (exportClause P r, "export"),
-   (askedClause P r, "asked")]
+   (askedClause P r, "asked"), (bindClause r, "bind")]
 
 /-- violated clauses of one step, given the previous snapshot -/
 def judgeStep (bb : Option Name) (P : List Obj) (r : StepRec) : List String :=
@@ -153,8 +166,9 @@ def judgeFrom (bb : Option Name) : List Obj → Nat → List StepRec → List St
   | P, i, r :: rs =>
     (judgeStep bb P r).map (fun v => s!"{v} step={i}") ++ judgeFrom bb (r.snap.getD P) (i + 1) rs
 
-/-- the oracle: before the first step only the master exists, with uid = euid = get_root_uid() -/
-def judgeEv (root : Name) (bb : Option Name) (trace : List StepRec) : List String :=
-  judgeFrom bb [{ oid := masterOid, name := "/c20/master", uid := some root, euid := some root }] 0 trace
+/-- the oracle: before the first step only the master exists, with uid = euid = get_root_uid() - or "NONAME" / 0 when
+    it defines no get_root_uid() -, and (configuration `simul`) the simul_efun object with "NONAME" / 0: `initObjs` -/
+def judgeEv (cfg : Cfg) (trace : List StepRec) : List String :=
+  judgeFrom cfg.bb (initObjs cfg) 0 trace
 
 end NV.C20
